@@ -431,6 +431,28 @@ func (s *Sim) setupPhase() {
 			s.doStep(op)
 		}
 	}
+	if s.pf.Preemption && len(apps) > 0 && s.rng.Bool(0.8) {
+		// preemption needs a full cluster: one application hogs it, then time passes
+		hog := pick(s.rng, apps)
+		total := Res{}
+		for _, n := range s.world.Nodes {
+			total.AddTo(n.Cap)
+		}
+		used := Res{}
+		for i := 0; i < 40 && used["vcore"] < total["vcore"] && used["memory"] < total["memory"]; i++ {
+			s.nAsk++
+			r := Res{"vcore": int64(s.rng.Range(1, 4)), "memory": int64(s.rng.Range(1, 4))}
+			used.AddTo(r)
+			a := AskArgs{Key: fmt.Sprintf("%s-k%d", hog, s.nAsk), App: hog, Res: r, PreemptSelf: true, Priority: int32(s.rng.Range(-1, 2))}
+			s.doStep(Op{Kind: "ask", Asks: []AskArgs{a}})
+		}
+		for i := 0; i < 30; i++ {
+			s.doStep(Op{Kind: "sched"})
+			if len(s.shim.StepEvents) == 0 && i > 5 {
+				break
+			}
+		}
+	}
 }
 
 // drainPhase: faults stop, every owed confirmation is delivered, everything is released and removed,
